@@ -141,15 +141,19 @@ def run(ctx: Ctx) -> None:
             v_ = float(g.pow(2).mean().sqrt())
             if not rel_close(v_, 1.0, 1e-12):
                 ctx.violation("C04:cross_entropy:uniform-exact", "logit-gradient RMS is not exactly 1 for uniform logits", key, v_)
-    for wd in ([16, 64, 1024] if quick else [16, 32, 64, 256, 1024, 4096]):
-        for opn in ("layer_norm", "rms_norm"):
-            key = {"op": opn, "width": wd}
+    # normalised width = number of normalised elements; the normalised shape may span several trailing dimensions
+    nshapes = [(16,), (64,), (1024,), (4, 4), (2, 8), (8, 32), (32, 8), (2, 2, 4)] if quick else \
+        [(16,), (32,), (64,), (256,), (1024,), (4096,), (4, 4), (2, 8), (8, 2), (8, 32), (32, 8), (2, 2, 4), (4, 16, 16), (16, 1)]
+    for ns in nshapes:
+        wd = math.prod(ns)
+        for opn, gains in (("layer_norm", True), ("rms_norm", True), ("rms_norm", False), ("layer_norm", False)):
+            key = {"op": opn, "width": wd, "normalized_shape": list(ns), "gain": "ones" if gains else None}
             ctx.count(key, bucket=opn)
             with ctx.guard(f"C04:{opn}:call", key):
-                xi = randn(N // wd, wd).requires_grad_(True)
-                gain = torch.ones(wd)
-                y = U.layer_norm(xi, (wd,), gain, torch.zeros(wd)) if opn == "layer_norm" else U.rms_norm(xi, (wd,), gain)
-                (g,) = torch.autograd.grad(y, xi, randn(N // wd, wd))
+                xi = randn(N // wd, *ns).requires_grad_(True)
+                gain = torch.ones(ns) if gains else None
+                y = U.layer_norm(xi, ns, gain, torch.zeros(ns) if gains else None) if opn == "layer_norm" else U.rms_norm(xi, ns, gain)
+                (g,) = torch.autograd.grad(y, xi, randn(N // wd, *ns))
                 band(f"{opn}:out-rms", key, float(y.detach().pow(2).mean().sqrt()), 0.9, 1.1)
                 band(f"{opn}:grad-rms", key, float(g.pow(2).mean().sqrt()), 0.9, 1.1)
 
